@@ -7,6 +7,7 @@ package instr
 import (
 	"fmt"
 	"go/ast"
+	"go/build"
 	"go/importer"
 	"go/parser"
 	"go/token"
@@ -109,6 +110,11 @@ func LibraryFiles(root string) ([]string, error) {
 			return nil
 		}
 		if strings.HasSuffix(p, ".go") && !strings.HasSuffix(p, "_test.go") {
+			// honour build constraints (//go:build lines, _GOOS/_GOARCH suffixes): a file the
+			// default build does not compile is neither instrumented nor type-checked
+			if ok, err := build.Default.MatchFile(filepath.Dir(p), filepath.Base(p)); err == nil && !ok {
+				return nil
+			}
 			files = append(files, rel)
 		}
 		return nil
